@@ -68,15 +68,19 @@ class P(Prop):
         ("TracklibVerif.Props.C19", "TV.C19.computed_bands_persist", "computeAggregates is the only call that writes into a band: after ANY other calls on a raster in any state (setNoDataValue with any value, any number of times; addAFMap; addCollectionToRaster; failing calls included) the geometry is the same, every band of before is still there, in place, with the very grid it held, the bands added since have new names, getAFMap(name) returns what it returned"),
         ("TracklibVerif.Props.C19", "TV.C19.session_spec_after_setters", "session_spec read later: after its computeAggregates, then any calls other than computeAggregates (setNoDataValue to 0 / a count / a value a cell really holds, several times in a row; addAFMap), EVERY band it wrote still holds its operator over exactly the located values of T; a cell without value: 0 for count / sum, otherwise the no-data value the raster had AT that computeAggregates, not the current one"),
         ("TracklibVerif.Props.C19", "TV.C19.compute_failing_bands", "a failing computeAggregates: the bands before the first band that raises are rewritten, that band and the following ones are exactly as they were, nothing else of the raster changes"),
+        ("TracklibVerif.Props.C19Partial", "TV.C19.add_collection_partial", "WHAT HAS BEEN WRITTEN when the TypeError of an observation outside the extent leaves addCollectionToRaster (any raster state, tracks before the failing one inside the extent, every track having every feature): TypeError, bands / geometry / no-data untouched, the replaced dictionary has the features of the bands in iteration order, and cell (i,j) of feature af holds exactly the values of af of the observations written — a prefix of the for trace: for afname: for i: order: every observation of the tracks before the failing one for every feature and, for the FIRST feature of the iteration order only, the observations of the failing track before its first one outside; nothing of the failing track for the other features, nothing of the later tracks"),
+        ("TracklibVerif.Props.C19Partial", "TV.C19.add_collection_partial_total", "add_collection_partial covers EVERY TypeError of add_collection_outside: a collection with an observation outside the extent splits at its FIRST track with one (the tracks before it inside the extent), and what addCollectionToRaster leaves is the written prefix for that split"),
+        ("TracklibVerif.Props.C19Partial", "TV.C19.partial_conservation", "'conserves observations' on the exception path: after the failing addCollectionToRaster the cell sizes of a feature add up to the number of observations WRITTEN for it (that prefix), any per-value weight (non-NaN: the co_count total) is conserved on them — nothing written twice, nothing written lost"),
+        ("TracklibVerif.Props.C19Partial", "TV.C19.partial_then_compute", "a later computeAggregates aggregates exactly what was written: after the failing addCollectionToRaster (caught), any calls other than addCollectionToRaster (setNoDataValue, addAFMap, computeAggregates), then computeAggregates with every band <feature>#<operator>: it does not raise and EVERY band holds its operator over exactly the written observations of its feature located in each cell, NaN -> the raster's no-data value at that call"),
     ]
     partial = []
     open_statements = ["IEEE rounding inside the cell operators (the running sums of co_sum / co_avg, the half-sum of co_median) is outside the theorems "
                        "(aggregate_spec is a field statement); sampled by the transfer check on the float streams. The grid geometry under rounding is proved "
                        "(rounded_cell_in_grid, rounded_conservation); that the margin-enlarged extent still contains the bounding box under rounding is not stated "
                        "(it needs rnd to be idempotent on floats)",
-                       "how the partial grids of several features and tracks combine when addCollectionToRaster raises TypeError (the for trace: for afname: order) is "
-                       "modelled and compared (driver), not stated as a theorem; the single loop is (scatter_stops_at_outside), the exceptions are "
-                       "(add_collection_missing_feature, add_collection_outside), a failing computeAggregates is (compute_failing_bands)",
+                       "the exception path of addCollectionToRaster is stated for the TypeError of an observation outside the extent (add_collection_partial, partial_conservation, "
+                       "partial_then_compute) under the hypothesis that every track has every feature with one value per observation (what the AnalyticalFeatureError test and the Track API guarantee); "
+                       "they are field statements about the model at exact floor — which float observation counts as outside is the comparison of getCell (tie_getCell), compared on the float streams",
                        ]
     modelled = ("core/raster.py: Raster.__init__ (margin, ncol/nrow = max(1, ceil(..))), getCell, and the Raster object as a state machine (Model/RasterSession.lean): "
                 "the bands (AFMap.__init__ name / grid checks, addAFMap with and without grid, getNamesOfAFMap order), collectionValuesGrid (absent before the first collection), "
@@ -115,6 +119,7 @@ class P(Prop):
             "another computeAggregates + setNoDataValue, another collection; the constructor's novalue and the new values drawn from markers that COLLIDE with genuine aggregates: 0 (count / sum of every cell "
             "without value), 1, 2, -1, values the feature takes, their sum, the uid, the default marker, None), errors (compute before add, names taken / empty / without '#' / unknown operator, explicit "
             "grids of right and wrong shape, observations outside), soup (3..9 random calls incl. summarize in scalar / callable / duplicated / ragged / empty argument forms, features x, y, idx); "
+            "exhaustive exception path (partial-enum): 2 and 3 tracks of 3 observations with v, w over [0,2]^2, every single observation in turn moved outside the extent, bands on v and w in both orders, then computeAggregates, setNoDataValue(-1), computeAggregates; "
             "after every call the whole object state (geometry, no-data, every band, collectionValuesGrid) is compared with the model (the bands as a set of named grids: their order is not part of the property); the oracle checks, after every well-formed "
             "addCollectionToRaster, the footprint of every observation's cell and the values kept per cell, and after every computeAggregates EVERY band against the collection scattered LAST; "
             "after every setNoDataValue / addAFMap that follows a validated computeAggregates or summarize the bands it wrote are read AGAIN: a cell with values holds its aggregate, a cell without "
@@ -165,6 +170,8 @@ class P(Prop):
                 "every ordered pair (36, including the same operator twice) of cell operators called in sequence on one list, for 6 fixed lists",
                 "every sequence of 1..3 calls from {setNoDataValue(0), setNoDataValue(1), setNoDataValue(-99999.0), setNoDataValue(None), computeAggregates} after "
                 "addAFMap x 4, addCollectionToRaster, computeAggregates on a raster built with novalue default / 0 / 1 / None (620 sessions), the bands read again after every call",
+                "the exception path of addCollectionToRaster: 2 and 3 tracks of 3 observations with features v, w over [0,2]^2, every single observation (track, rank) moved outside the extent "
+                "(two outside positions), bands on v and w added in both orders, then computeAggregates, setNoDataValue(-1), computeAggregates (60 sessions): the partial grids and the bands compared after every call",
                 "every sequence of 1..%d calls from {addAFMap(v#co_count), %saddCollectionToRaster(c0), addCollectionToRaster(c1), computeAggregates} on one raster over [0,2]^2 with unit cells (%d sessions), "
                 "the whole object state compared after every call" % ((5, "", 1364) if tier == "quick" else (6, "addAFMap(w#co_median), ", 19530))]
 
@@ -218,6 +225,7 @@ class P(Prop):
                     out.append({"kind": "op", "mode": "q", "vals": vals, "order": [a, b]})
         out += list(self.session_enum(tier))
         out += list(self.remark_enum())
+        out += list(self.partial_enum())
         nrand = 2500 if tier == "quick" else 40000
         for _ in range(nrand // 2):
             out.append(self.session(rng, "q"))
@@ -1856,6 +1864,27 @@ class P(Prop):
             for n in (1, 2, 3):
                 for seq in itertools.product(alpha, repeat=n):
                     yield {"kind": "session", "mode": "q", "tpl": "remark-enum", "colls": [c0], "ops": head + [list(o) for o in seq]}
+
+    def partial_enum(self):
+        """the exception path of addCollectionToRaster, exhaustively on a small scope: two (or three) tracks of three observations with the
+        features v, w on a raster over [0,2]^2 with unit cells; ONE observation — every (track, rank) in turn — moved outside the extent;
+        bands on v and w added in both orders; the TypeError caught, then computeAggregates (and setNoDataValue + computeAggregates):
+        what has been written to which grid (a prefix of the track x feature x observation order, theorem add_collection_partial) and
+        what the bands then hold (partial_then_compute) are compared with the model after every call"""
+        base = [{"uid": 1, "pts": [[0.5, 0.5], [1.5, 0.5], [0.5, 1.5]], "f": {"v": [1.0, 2.0, "nan"], "w": [10.0, "nan", 30.0]}},
+                {"uid": 2, "pts": [[1.5, 1.5], [0.5, 0.5], [2, 2]], "f": {"v": [4.0, 5.0, 6.0], "w": [40.0, 50.0, 60.0]}},
+                {"uid": 3, "pts": [[0, 0], [1.5, 0.5], [1, 1]], "f": {"v": [7.0, "nan", 9.0], "w": [70.0, 80.0, 90.0]}}]
+        orders = [["v#co_count", "w#co_count", "w#co_sum", "v#co_max"], ["w#co_count", "w#co_sum", "v#co_count", "v#co_max"]]
+        for ntr in (2, 3):
+            for ti in range(ntr):
+                for oi in range(3):
+                    for out in ([3, 3], [-0.5, 1]):
+                        coll = copy.deepcopy(base[:ntr])
+                        coll[ti]["pts"][oi] = list(out)
+                        for bands in orders:
+                            ops = [["new", [0, 2, 0, 2], [1, 1], 0, None]] + [["band", b] for b in bands]
+                            ops += [["add", 0], ["compute"], ["nodata", -1.0], ["compute"]]
+                            yield {"kind": "session", "mode": "q", "tpl": "partial-enum", "colls": [coll], "ops": ops}
 
     def remark_variants(self, case, rng):
         """neighbours of a session: setNoDataValue calls with colliding markers inserted after a computeAggregates / summarize"""
